@@ -109,7 +109,10 @@ claim('C09',
       'and text of the first token after which no valid file can continue, or the empty span at the end of the source (Lex/Spans.v + ErrPos); '
       'and the front end is the inverse of a printer (Front/Unparse.v): whenever it returns an AST, the token sequence it read is exactly `unparse ast` '
       '(positions apart), so two different token sequences never give the same AST and nothing of the input is dropped or invented. '
-      '"Not too early" is decided per input by an Earley oracle over an independently written grammar and the lexical specification.',
+      '"Not too early" too (Front/SelfHost.v): the tables read from parser.rs on this run are exactly the tables the model of generate produces from the text '
+      'of parser.kiki (vm_compute), so the theorems proved for the tables of every accepted grammar hold for the front end without validator or hints, and '
+      'every symbol of the published grammar is productive (vm_compute): what the front end has consumed when it reports a syntax error is a prefix of some '
+      'valid file (C09_syntax_error_is_neither_late_nor_early). An Earley oracle over an independently written grammar and the lexical specification still decides it per input.',
       COMMON_NOTE + 'cst_to_ast is modelled together with the reduce functions (Front/Cst2Ast.v) and compared.',
       'Translation (tables regenerated from parser.rs) + Coq validator by vm_compute + Tier A theorems', 'DESIGN.md §5 C09')
 claim('C10',
